@@ -291,7 +291,7 @@ func workerReplay(t *testing.T) {
 		}
 	}
 	for _, v := range vs {
-		if v.Rule == rf.Rule {
+		if v.Rule == rf.Rule && (rf.Property != "C18" || v.Sig == rf.Sig) {
 			fmt.Fprintf(os.Stderr, "REPRODUCED property=%s rule=%s sig=%s loghash=%016x steps=%d\n  %s\n", rf.Property, v.Rule, v.Sig, res.LogHash, res.Steps, v.Msg)
 			return
 		}
